@@ -334,8 +334,111 @@ def _menger_by_value(rc: RuleCtx, rule_range: Optional[str], rule_crit: Optional
     return True
 
 
+def _menger_formula(f_, g_, h_) -> Rat:
+    (fx, fy), (gx, gy), (hx, hy) = f_, g_, h_
+    cross = (gx - fx) * (hy - fy) - (gy - fy) * (hx - fx)
+
+    def d2(u, v):
+        return (u[0] - v[0]) * (u[0] - v[0]) + (u[1] - v[1]) * (u[1] - v[1])
+    return C(2) * anf.f_abs(cross) / anf.f_sqrt(d2(f_, g_) * d2(g_, h_) * d2(h_, f_))
+
+
+def _menger_vector(rc: RuleCtx, rule_range: Optional[str], rule_crit: Optional[str]) -> bool:
+    """The Menger detector without a loop: the curvatures of all interior points computed at once (menger_curvature called on
+    three shifted views and inlined) and padded with a constant at both ends - np.concatenate(([c], E, [c])), or a zero array
+    whose interior `[1:-1]` is assigned E.  Decided on the element view of E: E[j] must be the Menger curvature of the points
+    j, j+1, j+2 on *every* path E can be computed, and E has n-2 elements."""
+    from .. import elem
+    from ..intervals import scanned_positions
+    res = rc.res
+    fi = rc.func("menger.knee")
+    if any(isinstance(n_, (ast.For, ast.While)) for n_ in ast.walk(fi.node)):
+        return False
+    ev = rc.new_eval()
+    ev.summarise_loops = True
+    pts = ev.point("points", True)
+    ev.len_map = {"points": sym("n")}
+    n = sym("n")
+    try:
+        out = ev.eval_function(fi, {"points": pts})
+    except (Unsupported, AnalysisError):
+        return False
+    val = out.value()
+    E = None
+    pads = None
+    rets = [st for st in ast.walk(fi.node) if isinstance(st, ast.Return)]
+    if isinstance(val, Rat) and len(rets) == 1:
+        sp0 = scanned_positions(val, lambda x_: n if x_.is_zero() else ev.length_of(x_))
+        am = [a for a in val.atoms() if a.kind == "fn" and a.name == "argmax"]
+        if len(am) == 1 and val.equals(Rat.from_atom(am[0])):
+            X = am[0].args[0]
+            xa = single_atom(X)
+            if X.is_zero():
+                # layout (b): zeros(n) with the interior assigned
+                names = [nm_.id for nm_ in ast.walk(rets[0]) if isinstance(nm_, ast.Name) and (fi.qualname, nm_.id) in ev.prealloc]
+                stores = [e for e in out.events if e.kind == "store" and names and e.target == names[0]]
+                if len(names) == 1 and ev.prealloc[(fi.qualname, names[0])].equals(n) and len(stores) == 1 and stores[0].guard.kind == "true" \
+                        and isinstance(stores[0].args[0], Obj) and stores[0].args[0].tag == "slice":
+                    lo_, hi_, st_ = stores[0].args[0].val[3:6]
+                    if isinstance(lo_, Rat) and lo_.is_const() == 1 and isinstance(hi_, Rat) and hi_.is_const() == -1 and isinstance(st_, Obj):
+                        E, pads = stores[0].args[1], (C(0), C(0))
+            elif xa is not None and xa.name in ("np.concatenate", "np.hstack"):
+                parts = xa.args
+                if len(parts) == 1 and single_atom(parts[0]) is not None and single_atom(parts[0]).name == "vec":
+                    parts = single_atom(parts[0]).args
+                if len(parts) == 3:
+                    def first(p_):
+                        h_ = single_atom(p_)
+                        return h_.args[0] if (h_ is not None and h_.name == "vec" and len(h_.args) == 1) else p_
+                    E, pads = parts[1], (first(parts[0]), first(parts[2]))
+    if E is None:
+        return False
+    j = sym("j")
+    anf.declare_integer(j)
+    P = lambda k_: (_at(pts.items[0], k_), _at(pts.items[1], k_))      # noqa: E731
+    want = _menger_formula(P(j + C(1)), P(j), P(j + C(2)))
+    pad_ok = pads[0].is_const() is not None and pads[0].equals(pads[1])
+    bad_cases, len_ok = [], True
+    for g_, e_ in cases_of(E):
+        if not g_sat(g_):
+            continue
+        if not isinstance(e_, Rat):
+            return False
+        if e_.is_array():
+            got = elem.simplify(elem.element(e_, j))
+            if not ev.length_of(e_).equals(n - C(2)):
+                len_ok = False
+        else:
+            got = e_
+        calls = [a for a in got.all_atoms() if a.kind == "fn" and a.name.startswith(("call:", "dep:", "method:", "np."))]
+        if got.equals(want):
+            continue
+        if calls and not got.is_const() is not None:
+            return False              # something the algebra does not interpret: not read
+        bad_cases.append((g_, got))
+    range_ok = len_ok
+    if rule_range:
+        if pad_ok and range_ok:
+            res.ok(rule_range, "menger.knee", "argmax over [pad] + n-2 interior values + [same pad]: the first maximum is never the last index => index in [0, n-2] (loop-free form)")
+        else:
+            res.violation(rule_range, fi.module, fi.name, fi.node,
+                          "the Menger detector can return the last index: the curvature vector is not [c] + (one value per interior point) + [c] followed by argmax",
+                          f"pad ok={pad_ok}, n-2 interior values={range_ok}", "curvature = [0] + [k(i) for i in 1..n-2] + [0]; np.argmax(curvature)", construct="menger range")
+    if rule_crit:
+        if pad_ok and pads[0].is_zero() and range_ok and not bad_cases:
+            res.ok(rule_crit, "menger.knee", "maximises the Menger curvature 2|cross| / sqrt(product of squared sides) of the consecutive triples {i-1, i, i+1}, zero padding at both ends (loop-free form, by value)")
+        else:
+            g_, got = bad_cases[0] if bad_cases else (TRUE, E)
+            res.violation(rule_crit, fi.module, fi.name, fi.node, "the Menger detector does not maximise the Menger curvature of the consecutive triples {i-1, i, i+1}"
+                          + (f": under {_short(g_, 120)} the value of an interior point is {_short(got, 60)}" if bad_cases else ""),
+                          _short(got, 200), "2|cross(p_i - p_{i-1}, p_{i+1} - p_{i-1})| / (|p_i - p_{i-1}| |p_{i+1} - p_i| |p_{i-1} - p_{i+1}|) for i in 1..n-2", construct="menger criterion")
+    return True
+
+
 def menger(rc: RuleCtx, rule_range: Optional[str], rule_crit: Optional[str]):
     if _menger_by_value(rc, rule_range, rule_crit):
+        return
+    if _menger_vector(rc, rule_range, rule_crit):
         return
     res = rc.res
     fi = rc.func("menger.knee")
